@@ -134,7 +134,7 @@ func (g *Gen) directives() string {
 }
 
 func (g *Gen) deferDir() string {
-	if !g.Opt.Defer || rapid.IntRange(0, 2).Draw(g.t, "defer?") != 0 {
+	if !g.Opt.Defer || rapid.IntRange(0, 2).Draw(g.t, "defer?") == 0 {
 		return ""
 	}
 	g.deferN++
@@ -222,6 +222,9 @@ func (g *Gen) selectionSet(typ *ast.Definition, depth int, isRoot bool) string {
 			break
 		}
 		choice := rapid.IntRange(0, 9).Draw(g.t, "sel")
+		if g.Opt.Defer && !isRoot && choice >= 3 && choice <= 5 && rapid.Bool().Draw(g.t, "fragbias") {
+			choice = 7 + (choice-3)%3 // more fragments (the carriers of @defer) below the root
+		}
 		if isRoot && g.Schema.Mutation == typ && choice >= 6 {
 			choice = 0 // mutations: mostly plain root fields
 		}
